@@ -572,6 +572,9 @@ def m_iter_identity(I, st, call):
     a = call.args[0]
     if call.path.endswith("by_ref"):
         return [(st, a)]
+    if isinstance(a, RefV) and call.name == "into_iter" and call.arg_tys[0] is not None and call.arg_tys[0][0] == "ref" \
+            and call.arg_tys[0][2][0] == "adt" and ("iter" in call.arg_tys[0][2][1].lower()):
+        return [(st, a)]  # &mut Iterator is itself an iterator
     if isinstance(a, OpaqueV):
         return [(st, OpaqueV(call.dest_ty, tuple(a.attrs) + ((("adapt", call.name),) if call.name not in ("into_iter",) else ())))]
     if isinstance(a, StructV) and call.arg_tys[0] and call.arg_tys[0][0] == "adt" and "Range" in call.arg_tys[0][1]:
@@ -974,6 +977,13 @@ def generic_next(I, st, call):
 def m_next(I, st, call):
     ref = call.args[0]
     it = I.read(st, ref.place) if isinstance(ref, RefV) else None
+    if isinstance(it, RefV):
+        # <&mut I as Iterator>::next: forward to the inner iterator
+        inner = I.read(st, it.place)
+        if isinstance(inner, OpaqueV) and inner.get("iter") == "chars":
+            call.args = [it] + list(call.args[1:])
+            return m_chars_next(I, st, call)
+        ref, it = it, inner
     if isinstance(it, OpaqueV) and isinstance(it.get("last_key"), Aff) and "btree" in call.path:
         dt = call.dest_ty
         item_ty = dt[2][0] if dt and dt[0] == "adt" and dt[2] else None
@@ -1113,7 +1123,16 @@ def m_chars(I, st, call):
 @model("core::str::iter::Chars::<'a>::as_str")
 def m_chars_as_str(I, st, call):
     ref = call.args[0]
-    it = I.read(st, ref.place) if isinstance(ref, RefV) else None
+    it = I.ensure(st, ref.place, pointee(call.arg_tys[0]), "chars") if isinstance(ref, RefV) else None
+    if isinstance(it, OpaqueV) and it.get("iter") != "chars" and isinstance(ref, RefV):
+        # an unknown Chars iterator: give it a cursor over a fresh string object
+        I.nsym += 1
+        base = ("obj", "chars", I.nsym)
+        pos = I.fresh(st, "pos", 0, ISIZE_MAX)
+        end = I.fresh(st, "end", 0, ISIZE_MAX)
+        st.add_fact(Aff.sym(end) - Aff.sym(pos))
+        it = OpaqueV(it.ty, (("iter", "chars"), ("base", base), ("start", Aff.sym(pos)), ("end", Aff.sym(end)), ("pos", Aff.sym(pos))))
+        I.write(st, ref.place, it)
     if isinstance(it, OpaqueV) and it.get("iter") == "chars":
         pos, end = it.get("pos"), it.get("end")
         return [(st, SliceV(end - pos, it.get("base"), pos))]
@@ -1157,8 +1176,10 @@ def m_chars_clone(I, st, call):
 @model("core::str::<impl str>::as_ptr")
 def m_str_as_ptr(I, st, call):
     s = as_slice(I, st, call.args[0], call.arg_tys[0])
-    if s is None or s.base is None:
+    if s is None:
         return None
+    if s.base is None:
+        return [(st, PtrV(("strbase", I.fresh(st, "addr", 1, ISIZE_MAX)), Aff.const(0), 0, False))]
     # one address symbol per base object
     key = ("addr", s.base)
     name = I.addr_syms.get(key)
@@ -1338,3 +1359,13 @@ def m_range_bound(I, st, call):
         if kind == "RangeFull":
             return [(st, EnumV("core::ops::range::Bound", {2: StructV([])}, call.dest_ty))]
     return None
+
+
+@model("alloc::string::<impl core::convert::From<&'a str> for alloc::borrow::Cow<'a, str>>::from")
+def m_cow_borrowed(I, st, call):
+    return [(st, EnumV("alloc::borrow::Cow", {0: StructV([call.args[0]])}, call.dest_ty))]
+
+
+@model("alloc::string::<impl core::convert::From<alloc::string::String> for alloc::borrow::Cow<'a, str>>::from")
+def m_cow_owned(I, st, call):
+    return [(st, EnumV("alloc::borrow::Cow", {1: StructV([call.args[0]])}, call.dest_ty))]
